@@ -150,6 +150,30 @@ def run(ctx):
         ctx.check(bool(edges) and not still, "C19-R3", "validate:never-push-marker",
                   "the speculative push in validate_tokens is dominated by b != SPECIAL_TOKEN_MARKER",
                   "validate_tokens can push the special-marker byte 0xFF into the recogniser", site=vt.where(pushes[0]))
+    # sibling cross-check: the other driver that feeds vocabulary token bytes to the recogniser is the trie walk
+    # behind compute_bias. It has no marker guard, so a special token is admitted *by its spelling* whenever the
+    # lexer accepts 0xFF + name — i.e. a special token literally named "[5]" is allowed wherever <[5]> is.
+    # Mitigation accepted by the rule: a marker guard in the speculative try_push_byte, or a post-walk filter in
+    # ParserState::compute_bias that clears the special-token subtree (get_special_tokens / is_special_token).
+    tp = ctx.body(REC + "try_push_byte")
+    adv = tp.call_blocks("llguidance::earley::lexer::Lexer::advance")
+    edges = []
+    for bi, e, targets, otherwise in tp.switch_edges():
+        cur, pol = F.peel_polarity(e)
+        if marker_ne(cur):
+            tt, ft = F.bool_targets(targets, otherwise)
+            want_true = ((cur[1] == "Ne") == pol)
+            for t in (tt if want_true else ft):
+                edges.append((bi, t))
+    guarded = bool(edges) and not L.dominated_by_cut(tp, adv, edges)
+    cbody = ctx.body(PS + "::compute_bias")
+    filt = [bi for bi, t in cbody.calls() if t["f"].get("def", "").rsplit("::", 1)[-1] in ("get_special_tokens", "is_special_token", "special_token_set", "disallow_special_tokens")]
+    ctx.check(guarded or bool(filt), "C19-R3", "mask-walk-admits-special-tokens-by-spelling",
+              "the mask walk cannot admit a special token through its byte spelling",
+              "validate_tokens refuses to push the marker byte, but the trie walk behind compute_bias pushes every token's bytes "
+              "(including 0xFF-prefixed special tokens) into the recogniser and only the bare marker token is removed afterwards: "
+              "a special token whose name matches the numeric reference syntax (bytes FF '[' digits ']') is put into the mask "
+              "wherever the grammar names <[digits]>, although it is a different token id", site=tp.where())
     fb = ctx.body(PS + "::force_bytes::{closure#0}")
     edges = []
     for bi, e, targets, otherwise in fb.switch_edges():
